@@ -162,10 +162,12 @@ def run_tlc(
     shutil.copy2(cfg_path, workdir / f"{module}.run.cfg")
     meta = workdir / f"meta-{module}-{os.getpid()}-{time.time_ns()}"
     cmd = ["java", "-XX:+UseParallelGC", "-Xss16m"]
+    if str(workers) == "1":
+        cmd += ["-XX:ParallelGCThreads=2", "-Xmx2g", "-XX:-UsePerfData"]
     if dfs:
         cmd.append("-Dtlc2.tool.queue.IStateQueue=StateDeque")
     cmd += ["-cp", f"{JAR}:{DEPS}", "tlc2.TLC", "-metadir", str(meta), "-noGenerateSpecTE",
-            "-config", f"{module}.run.cfg", "-workers", str(workers)]
+            "-config", f"{module}.run.cfg", "-workers", str(workers), "-fpmem", "0.02"]
     if cont:
         cmd.append("-continue")
     if coverage:
